@@ -27,6 +27,7 @@ func BuildOverlay(verifDir string, pkgs map[string][]string) (*Overlay, error) {
 	ov := &Overlay{Files: map[string]string{}}
 	vrt := filepath.Join(verifDir, "harness", "zzvrt", "vrt.go")
 	ov.Files[filepath.Join(RepoDir, "pkg", "zzvrt", "vrt.go")] = vrt
+	ov.Files[filepath.Join(RepoDir, "pkg", "zzvkit", "kit.go")] = filepath.Join(verifDir, "harness", "zzvkit", "kit.go")
 	for pkg, files := range pkgs {
 		for _, f := range files {
 			real := filepath.Join(verifDir, "harness", f)
